@@ -116,6 +116,7 @@ pub fn send_snap(s: &SendSnap, sc: Scale, src_ck: u32) -> Value {
         "progress": sc.off(s.sent_file_size),
         "rfs": sc.off(s.received_file_size),
         "eof": eof,
+        "acked": s.eof_acked,
         "ack": s.ack.is_some(),
         "ackcond": s.ack.map(|a| cond_name(a.0)).unwrap_or("NoError"),
         "ackstatus": s.ack.map(|a| status_name(a.1)).unwrap_or("Undefined"),
